@@ -317,9 +317,10 @@ def isstdlibsubtypeM (a : Ann) : Bool := issubTri L .stdlibSub (resolveSupertype
 
 /-! ## 5. Names (inspection.py:218-271) -/
 
-def typingDot : Str := "typing.".toList
-def typingExtDot : Str := "typing_extensions.".toList
-def localsDot : Str := "<locals>.".toList
+-- literals as explicit character lists: `"…".toList` costs ~0.4 s per string in the kernel
+def typingDot : Str := ['t', 'y', 'p', 'i', 'n', 'g', '.']
+def typingExtDot : Str := ['t', 'y', 'p', 'i', 'n', 'g', '_', 'e', 'x', 't', 'e', 'n', 's', 'i', 'o', 'n', 's', '.']
+def localsDot : Str := ['<', 'l', 'o', 'c', 'a', 'l', 's', '>', '.']
 
 def startsTyping (s : Str) : Bool := typingDot.isPrefixOf s || typingExtDot.isPrefixOf s
 def hasBracket (s : Str) : Bool := s.contains '['
@@ -365,9 +366,14 @@ def nameIn (names : List Str) (n : Option Str) : Bool :=
   | some s => names.contains s
   | none => false
 
-def unionNames : List Str := ["Union".toList, "UnionType".toList]
-def optionalNames : List Str := ["Optional".toList]
-def nullableNames : List Str := ["Union".toList, "UnionType".toList, "Literal".toList]
+def nUnion : Str := ['U', 'n', 'i', 'o', 'n']
+def nUnionType : Str := ['U', 'n', 'i', 'o', 'n', 'T', 'y', 'p', 'e']
+def nOptional : Str := ['O', 'p', 't', 'i', 'o', 'n', 'a', 'l']
+def nLiteral : Str := ['L', 'i', 't', 'e', 'r', 'a', 'l']
+def nFinal : Str := ['F', 'i', 'n', 'a', 'l']
+def unionNames : List Str := [nUnion, nUnionType]
+def optionalNames : List Str := [nOptional]
+def nullableNames : List Str := [nUnion, nUnionType, nLiteral]
 
 /-! ## 6. Special-form predicates -/
 
@@ -378,22 +384,8 @@ def isNoneAnn : Ann → Bool
 
 def isnonetypeM (a : Ann) : Bool := isNoneAnn L a
 
-/-- `next((a for a in getattr(obj, "__args__", ()) if a in (type(None), None)), ...) is not ...`. -/
-def hasNullArg : Ann → Bool
-  | .sub _ args => args.any (isNoneAnn L)
-  | .union sp ms => sp == .optional || ms.any (isNoneAnn L)
-  | .literal hn => hn
-  | .final x => isNoneAnn L x
-  | .classvar x => isNoneAnn L x
-  | _ => false
-
 /-- `isuniontype` (inspection.py:584-587). -/
 def isuniontypeM (a : Ann) : Bool := nameIn unionNames (nameOf L (originM L a))
-
-/-- `isoptionaltype` (inspection.py:554-578). -/
-def isoptionaltypeM (a : Ann) : Bool :=
-  nameIn optionalNames (nameOf L (originM L a)) ||
-    (hasNullArg L a && nameIn nullableNames (nameOf L (originM L a)))
 
 /-- `isliteral` (inspection.py:605-614). -/
 def isliteralM (a : Ann) : Bool :=
@@ -534,6 +526,35 @@ def unwrapM : Ann → Option Ann
   | .tvarFree => some (.base L.anyId)
   | .base i => if shouldUnwrapM L (.base i) then none else some (.base i)
   | a => some a
+
+/-! ## 7b. `isoptionaltype` (inspection.py:560-585; it calls `unwrap` on every argument) -/
+
+/-- `getattr(obj, "__args__", ())`. -/
+def rawArgs : Ann → List Ann
+  | .sub _ args => args
+  | .union .optional ms => ms ++ [.base L.noneTypeId]
+  | .union _ ms => ms
+  | .final x => [x]
+  | .classvar x => [x]
+  | _ => []
+
+/-- `next((a for a in args if unwrap(a) in (type(None), None)), ...) is not ...`; `none`: `unwrap` raised. -/
+def nullScan : List Ann → Option Bool
+  | [] => some false
+  | a :: as =>
+    match unwrapM L a with
+    | none => none
+    | some u => if isNoneAnn L u then some true else nullScan as
+
+/-- The arguments of a Literal are values, not annotations: only whether `None` is one of them matters. -/
+def nullArg : Ann → Option Bool
+  | .literal hn => some hn
+  | a => nullScan L (rawArgs L a)
+
+def isoptionalWith (a : Ann) (nullarg : Bool) : Bool :=
+  nameIn optionalNames (nameOf L (originM L a)) || (nullarg && nameIn nullableNames (nameOf L (originM L a)))
+
+def isoptionaltypeM (a : Ann) : Option Bool := (nullArg L a).map (isoptionalWith L a)
 
 /-! ## 8. The runtime oracle -/
 
